@@ -1,4 +1,4 @@
-import GstProofs.Db.Ops
+import GstProofs.Db.Step
 /-!
 # C07 — A Db stays a consistent table under any sequence of edits
 
@@ -7,11 +7,17 @@ uid per column, rectangular content, every role entry a live column, no column w
 role numbers are list positions, hence consecutive from one).  The same `inv` is evaluated by the
 driver on the *library's* state after every operation of every generated history.
 
-Proved here for all histories: the deleting operations, sample edits, value assignments and role
-clearing preserve `Inv`.  Role assignment and renaming are **not** covered by a theorem yet
-(`Covered` lists exactly what is); for them the statement is decided per history by the oracle.
-The full statement fails for the unchanged library in one documented way (known finding F4): an
-explicit role number beyond the current count pads the role list with uid 0 — witnessed below.
+Proved here for ALL histories of ALL 21 editing operations of the model (column addition, the four
+deletions, the four renamings, the five role assignments, role clearing and switching, sample
+addition / deletion, value assignment): from a consistent table every accepted operation yields a
+consistent table (`step_full`), hence every reachable state is consistent (`reach_full`, induction
+on the history, no bound on its length).  The only side condition is `Admissible`: an *explicit*
+role number must not exceed by more than one the number of roles of that type held by the other
+columns.  That condition is exactly what the unchanged library needs (known finding F4: beyond it
+the role list is padded with uid 0 — witnessed below as the negation of the statement without the
+condition); every operation that leaves the role number to the library (`locatorIndex < 0`)
+satisfies it in every state (`reach_auto`).  The duplicate-correcting name helpers are proved to
+return duplicate-free lists whatever the names proposed (`Db.fixNewName_spec`, `Db.fixNames_spec`).
 -/
 namespace GstProofs.C07
 open GstVerif GstVerif.Db GstProofs.Db
@@ -24,11 +30,24 @@ theorem init (g : Bool) : Inv { grid := g, nech := 0, nextUid := 0, uids := [], 
                                 loc := List.replicate NLOC [] } := by
   rw [← inv_iff]; cases g <;> decide
 
-/-- one step of a covered operation -/
+/-- one step of any operation -/
+theorem step_full (s s' : State) (op : Op) (h : Inv s) (ha : Admissible s op)
+    (hs : step s op = some s') : Inv s' := step_inv s s' op h ha hs
+
+/-- every history of editing operations, from any consistent state -/
+theorem reach_full (ops : List Op) (s s' : State) (ha : AdmissiblePath s ops)
+    (h : Inv s) (hs : ops.foldlM (fun st op => step st op) s = some s') : Inv s' :=
+  reach ops s s' ha h hs
+
+/-- … in particular every history whose role numbers are left to the library -/
+theorem reach_auto (ops : List Op) (s s' : State) (ha : ∀ op ∈ ops, AutoRank op = true)
+    (h : Inv s) (hs : ops.foldlM (fun st op => step st op) s = some s') : Inv s' :=
+  GstProofs.Db.reach_auto ops s s' ha h hs
+
+/-- the operations covered in the first version of this file (kept: no side condition at all) -/
 theorem step_partial (s s' : State) (op : Op) (hc : Covered op = true) (h : Inv s)
     (hs : step s op = some s') : Inv s' := step_inv_covered s s' op hc h hs
 
-/-- every history of covered operations, from any consistent state -/
 theorem reach_partial (ops : List Op) (s s' : State) (hc : ∀ op ∈ ops, Covered op = true)
     (h : Inv s) (hs : ops.foldlM (fun st op => step st op) s = some s') : Inv s' :=
   reach_covered ops s s' hc h hs
@@ -51,6 +70,12 @@ def s2 : State := { grid := false, nech := 1, nextUid := 2, uids := [0, 1], name
 example : inv s2 = true := by decide
 /-- `setLocatorByUID(uid 1, Z, rank 3)`: ranks 1 and 2 are padded with uid 0 (two roles for column 0) -/
 example : inv (setLocatorByUID s2 1 1 2 false) = false := by decide
+/-- … and that call is exactly what `Admissible` excludes: rank 2 (0-based) with no other Z role -/
+example : ¬ Admissible s2 (.locUid 1 1 2 false) := by
+  simp only [Admissible, RankOK, rolesBefore]; decide
+/-- the next free rank is admissible -/
+example : Admissible s2 (.locUid 1 1 0 false) := by
+  simp only [Admissible, RankOK, rolesBefore]; decide
 /-- with the automatic rank the table stays consistent -/
 example : inv (setLocatorByUID s2 1 1 (-1) false) = true := by decide
 
